@@ -271,8 +271,8 @@ func execC11(t *testing.T, c C11Case) (v Verdict) {
 				_ = raw.Write(context.Background(), e.Build(77, method, "c0", kit.ServerName))
 			}
 			body := kit.Payload{Class: "lit", Lit: []byte("x")}
-			send(kit.EnvSpec{})                                               // open
-			send(kit.EnvSpec{Body: &body})                                    // one message
+			send(kit.EnvSpec{})                                                // open
+			send(kit.EnvSpec{Body: &body})                                     // one message
 			send(kit.EnvSpec{Status: &kit.StatusSpec{Code: 0}, Trailer: true}) // half-close
 			kit.Settle()
 			for i := 0; i < c.Extra; i++ {
